@@ -6,7 +6,7 @@ import itertools
 from ..core import AnalysisError, where, norm
 from ..liftforms import LifterModel
 from ..lifter import LiftError, LiftUnknown, Term, TId, TInt, TSlice, ModVal, InfoObj, show, walk_terms, FuncVal
-from ..lifter import get_size as get_size_
+from ..lifter import get_size as get_size_, get_size, SizeError
 from ..irsets import (eval_small, Refuse, msb_function, load_cc_ref, cc_predicate, load_effects_ref, rw_sets, FLAGS)
 from ..shapes import u
 from ..srcmodel import walk_no_nested
@@ -335,6 +335,112 @@ def shift_value_rule(ctx, R, L, sem):
                             witness='%s on %#x by %d' % (name, a, cnt))
             else:
                 R.ok(inst, sample='%s %d-bit: %d vectors agree with the IA-32 definition' % (name, w, n_vec))
+
+
+def stack_pointer_rule(ctx, R, L, sem):
+    """In a 32-bit code segment the stack pointer is esp whatever the operand size: a 0x66 prefix changes the size of the slot (2 bytes), not the register
+    that addresses it - push/pop are lifted that way.  The lifted templates of the other stack instructions are evaluated under the 16-bit operand size with
+    esp = 0x1234fffe (the increment has to carry into the high half) and ebp = 0x12350020: cells read and written, and the esp / ebp that result."""
+    from ..lifter import TMem, TOp, TId, TInt, ModVal, InfoObj, walk_terms
+    I = L.I
+    ESP0, EBP0, NEXT = 0x1234fffe, 0x12350020, 0x401005
+    val = {'esp': ESP0, 'ebp': EBP0, 'cs': 0x23}
+    nxt = TInt(ModVal(32, NEXT))
+    dest = TInt(ModVal(16, 0x2211))
+    imm4 = TInt(ModVal(16, 4))
+    imm16 = TInt(ModVal(16, 0x10))
+    imm0 = TInt(ModVal(8, 0))
+
+    def new_reg(tmpl, reg, old):
+        """value of a 32-bit register after the assignments (whole-register or slice destinations), None when not assigned"""
+        out = None
+        atoms = dict((show(t), 0x7777) for a in tmpl if a.kind == 'Aff' for t in walk_terms(a.src) if t.kind == 'Mem')     # what a popped cell holds
+        for a in tmpl:
+            if a.kind != 'Aff':
+                continue
+            if a.dst.kind == 'Id' and a.dst.name == reg:
+                out = eval_small(a.src, val, atoms)[0] & 0xffffffff
+            elif a.dst.kind == 'Slice' and a.dst.arg.kind == 'Id' and a.dst.arg.name == reg:
+                w = a.dst.stop - a.dst.start
+                v = eval_small(a.src, val, atoms)[0] & ((1 << w) - 1)
+                base = old if out is None else out
+                out = (base & ~(((1 << w) - 1) << a.dst.start)) | (v << a.dst.start)
+        return out
+
+    def cells(tmpl):
+        """(written addresses, read addresses) of memory cells, as 32-bit-or-narrower values with the address width"""
+        wr, rd = [], []
+        for a in tmpl:
+            if a.kind != 'Aff':
+                continue
+            if a.dst.kind == 'Mem':
+                wr.append((eval_small(a.dst.arg, val)[0], get_size(a.dst.arg), a.dst.size))
+            for t in walk_terms(a.src):
+                if t.kind == 'Mem':
+                    rd.append((eval_small(t.arg, val)[0], get_size(t.arg), t.size))
+        return wr, rd
+    CASES = [
+        ('call', 'call rel16', [nxt, dest], {'esp': ESP0 - 2, 'wr': [ESP0 - 2], 'rd': []}),
+        ('ret', 'ret', [], {'esp': ESP0 + 2, 'wr': [], 'rd': [ESP0]}),
+        ('ret', 'ret 4', [imm4], {'esp': ESP0 + 6, 'wr': [], 'rd': [ESP0]}),
+        ('retf', 'retf', [], {'esp': ESP0 + 4, 'wr': [], 'rd': [ESP0, ESP0 + 2]}),
+        ('leave', 'leave', [], {'esp': EBP0 + 2, 'wr': [], 'rd': [EBP0], 'ebp_hi': EBP0 >> 16}),
+        ('enter', 'enter 16, 0', [imm16, imm0], {'esp': ESP0 - 2 - 16, 'wr': [ESP0 - 2], 'rd': [], 'ebp': (EBP0 & 0xffff0000) | ((ESP0 - 2) & 0xffff)}),
+    ]
+    dest32 = TInt(ModVal(32, 0x44332211))
+    CASES32 = [
+        ('call', 'call rel32', [nxt, dest32], {'esp': ESP0 - 4, 'wr': [ESP0 - 4], 'rd': []}),
+        ('ret', 'ret', [], {'esp': ESP0 + 4, 'wr': [], 'rd': [ESP0]}),
+        ('ret', 'ret 4', [imm4], {'esp': ESP0 + 8, 'wr': [], 'rd': [ESP0]}),
+        ('retf', 'retf', [], {'esp': ESP0 + 8, 'wr': [], 'rd': [ESP0, ESP0 + 4]}),
+        ('retf', 'retf 4', [imm4], {'esp': ESP0 + 12, 'wr': [], 'rd': [ESP0, ESP0 + 4]}),
+        ('leave', 'leave', [], {'esp': EBP0 + 4, 'wr': [], 'rd': [EBP0]}),
+        ('enter', 'enter 16, 0', [imm16, imm0], {'esp': ESP0 - 4 - 16, 'wr': [ESP0 - 4], 'rd': [], 'ebp': (ESP0 - 4) & 0xffffffff}),
+    ]
+    for opm, (name, label, args, want) in [('u16', c) for c in CASES] + [('u32', c) for c in CASES32]:
+        f = L.mnemo_func.get(name)
+        if f is None:
+            raise AnalysisError('ia32_sem.mnemo_func has no %r' % name)
+        inst = 'stack pointer: %s%s' % ('66 ' if opm == 'u16' else '', label)
+        slot = 16 if opm == 'u16' else 32
+        try:
+            res = I.run(f, [InfoObj(opm, 'u32')] + args)
+        except LiftUnknown as e:
+            raise AnalysisError('%s is outside the modelled subset under the 16-bit operand size: %s' % (name, e))
+        for dec, tmpl in res:
+            if isinstance(tmpl, LiftError) or not isinstance(tmpl, list):
+                R.violation(inst, 'stackptr:%s:%s:raises' % (opm, label), 'lifting %s under the %d-bit operand size raises %s' % (label, slot, getattr(tmpl, 'exc', tmpl)), where(sem, f.node))
+                continue
+            problems = []
+            try:
+                wr, rd = cells(tmpl)
+                got_esp = new_reg(tmpl, 'esp', ESP0)
+                if got_esp != (want['esp'] & 0xffffffff):
+                    problems.append('esp = %#x becomes %s, IA-32: %#x' % (ESP0, 'unchanged' if got_esp is None else '%#x' % got_esp, want['esp'] & 0xffffffff))
+                for kind, got_cells, want_cells in (('written', wr, want['wr']), ('read', rd, want['rd'])):
+                    got_addrs = sorted(a_ & 0xffffffff for a_, w_, _s in got_cells)
+                    narrow = [a_ for a_, w_, _s in got_cells if w_ != 32]
+                    if narrow:
+                        problems.append('a stack cell is addressed with %d bits (%s): the stack pointer of a 32-bit segment is esp' % (got_cells[0][1], ', '.join('%#x' % a_ for a_ in narrow)))
+                    elif got_addrs != sorted(x & 0xffffffff for x in want_cells):
+                        problems.append('cells %s: %s, IA-32: %s' % (kind, [hex(x) for x in got_addrs], [hex(x & 0xffffffff) for x in sorted(want_cells)]))
+                    if any(s_ != slot and not (name == 'retf' and s_ == 16) for _a, _w, s_ in got_cells):
+                        problems.append('a stack slot of %s bits under the %d-bit operand size' % (sorted(set(s_ for _a, _w, s_ in got_cells)), slot))
+                if 'ebp' in want:
+                    g = new_reg(tmpl, 'ebp', EBP0)
+                    if g != want['ebp']:
+                        problems.append('ebp becomes %s, IA-32: %#x (bp = low word of the frame pointer, high half kept)' % ('unchanged' if g is None else '%#x' % g, want['ebp']))
+                if 'ebp_hi' in want:
+                    g = new_reg(tmpl, 'ebp', EBP0)
+                    if g is None or (g >> 16) != want['ebp_hi']:
+                        problems.append('the high half of ebp is not kept')
+            except (Refuse, SizeError) as e:
+                raise AnalysisError('%s: lifted template not evaluable: %s' % (inst, e))
+            if problems:
+                R.violation(inst, 'stackptr:%s%s' % ('66 ' if opm == 'u16' else '', label), '%s under the %d-bit operand size: %s' % (label, slot, '; '.join(problems)), where(sem, f.node),
+                            witness='66 c3 with esp = 0x1234fffe: IA-32 reads the word at 0x1234fffe and leaves esp = 0x12350000')
+            else:
+                R.ok(inst, sample='%s: esp, cells and frame pointer as IA-32 prescribes for esp = %#x' % (inst, ESP0))
 
 
 def bittest_address_rule(ctx, R, L, sem):
@@ -911,6 +1017,8 @@ def run(ctx, report):
     shift_value_rule(ctx, R12, L, sem)
     R13 = report.rule('C04.D13', 'bt/bts/btr/btc on memory: a register bit offset is signed and selects the cell, an immediate offset stays inside the operand (lifted carry evaluated)', floor=16)
     bittest_address_rule(ctx, R13, L, sem)
+    R14 = report.rule('C04.D14', 'call / ret / retf / leave / enter under the 16-bit operand size address the stack through the 32-bit esp, as push and pop do (lifted addresses and the new esp evaluated)', floor=13)
+    stack_pointer_rule(ctx, R14, L, sem)
     R11 = report.rule('C04.D11', 'xchg / xadd on two parts of one register (al, ah) write both parts (lifted assignments evaluated)', floor=4)
     same_register_parts_rule(ctx, R11, L, sem)
     report.analysed['effects_ref_mnemonics'] = len(eff)
@@ -1006,4 +1114,7 @@ MUTANTS = [
      "def shr(info, a, b):\n    e= []\n    shifter = ExprOp('&',b, ExprInt_from(b, a.get_size()-1))", 'C04.D4'),
     ('sar-nomask', 'miasmx/arch/ia32_sem.py', "def sar(info, a, b):\n    e= []\n\n    shifter = ExprOp('&',b, ExprInt_from(b, 0x1f))", "def sar(info, a, b):\n    e= []\n\n    shifter = b", 'C04.D4'),
     ('mov-zf', 'miasmx/arch/ia32_sem.py', "                         (ExprInt_from(b, 0), b.get_size(), a.get_size())])\n    return [ExprAff(a, b)]", "                         (ExprInt_from(b, 0), b.get_size(), a.get_size())])\n    return [ExprAff(a, b)] + update_flag_zf(b)", 'C04.D3'),
+    ('retf32-pops-6', 'miasmx/arch/ia32_sem.py', "ExprInt(int_cast(2*(s//8))), a))))", "ExprInt(int_cast(s//8 + 2)), a))))", 'C04.D14'),
+    ('leave16-sp', 'miasmx/arch/ia32_sem.py', "    e.append(ExprAff(esp, ExprOp('+', ExprInt32(s/8), ebp)))", "    e.append(ExprAff(esp[:16], ExprOp('+', ExprInt16(s/8), ebp[:16])))", 'C04.D14'),
+    ('enter16-whole-ebp', 'miasmx/arch/ia32_sem.py', "        e.append(ExprAff(myebp, esp_tmp[:16]))", "        e.append(ExprAff(ebp, esp_tmp))", 'C04.D14'),
 ]
